@@ -138,6 +138,16 @@ def put_file(key, prefix, content, paths, tmp):
     return name
 
 
+def controller_sv(mc):
+    """What a controller's struct definitions say about sv now: [[name, default], ...]"""
+    try:
+        sv = mc.structs[b"sv"]
+        return [[n.decode("latin-1"), f.default if isinstance(f.default, int) else repr(f.default)]
+                for n, f in sv.fields.items()]
+    except Exception as e:      # noqa
+        return ["unreadable", repr(e)]
+
+
 def run_history(h):
     B.socket = FakeSocketModule()
     B.time = FakeTimeModule()
@@ -146,6 +156,7 @@ def run_history(h):
     out = dict(presets_before=dict((k, items(v)) for k, v in pres.items() if v is not None), calls=[])
     tmp = []
     paths = {}
+    controllers = {}
     try:
         for c in h["calls"]:
             REC.reset(c["times"])
@@ -175,20 +186,41 @@ def run_history(h):
             for k, v in c["kwargs"]:
                 kw[k] = v
             try:
-                if c["via"] == "mc":
-                    from rig.machine_control import MachineController
-                    mc = MachineController(c["host"])
+                if c["via"] == "cli":
+                    # the command-line entry point: rig-boot HOST [--spinN]; the machine never answers SCP, so
+                    # the tool reports failure (2) after having sent the boot datagrams
+                    from rig.scripts import rig_boot
+                    import io
+                    import contextlib
+                    with contextlib.redirect_stderr(io.StringIO()):
+                        rc = rig_boot.main([c["host"]] + list(c["cli_args"]))
+                    structs = None
+                    res = ["cli", None, rc]
+                elif c["via"] == "mc":
+                    from rig.machine_control import MachineController, struct_file
+                    key = "c%s" % c["ctrl"] if c.get("ctrl") is not None else "auto%d" % len(controllers)
+                    if key not in controllers:
+                        ckw = {}
+                        if c.get("structs_given"):
+                            with open(os.path.join(BOOTDIR, "sark.struct"), "rb") as f:
+                                ckw["structs"] = struct_file.read_struct_file(f.read())
+                        controllers[key] = MachineController(c["host"], **ckw)
+                    mc = controllers[key]
+                    for name in ("width", "height"):
+                        if c.get(name) is not None:
+                            kw[name] = c[name]
                     sent = mc.boot(only_if_needed=False, check_booted=False, **kw)
                     structs = mc.structs
                     res = ["ok", None, sent is True]
                 else:
                     structs = B.boot(c["host"], **kw)
                     res = ["ok", None, True]
-                sv = structs[b"sv"]
-                res[1] = dict(size=sv.size, names=[n.decode("latin-1") for n in structs],
-                              fields=[[n.decode("latin-1"), f.pack_chars.decode("latin-1"), f.offset,
-                                       f.default if isinstance(f.default, int) else repr(f.default), f.length]
-                                      for n, f in sv.fields.items()])
+                if structs is not None:
+                    sv = structs[b"sv"]
+                    res[1] = dict(size=sv.size, names=[n.decode("latin-1") for n in structs],
+                                  fields=[[n.decode("latin-1"), f.pack_chars.decode("latin-1"), f.offset,
+                                           f.default if isinstance(f.default, int) else repr(f.default), f.length]
+                                          for n, f in sv.fields.items()])
             except Exception as e:      # noqa
                 res = ["error", type(e).__name__, str(e)[:200]]
             sd = shared_default()
@@ -196,7 +228,8 @@ def run_history(h):
                 result=res, connects=REC.connects, datagrams=REC.sent, closed=REC.closed, created=REC.created,
                 sleeps=REC.sleeps, time_reads=REC.time_reads,
                 passed_after=None if passed is None else items(passed),
-                shared_after=None if sd is None else items(sd)))
+                shared_after=None if sd is None else items(sd),
+                controllers=dict((k, controller_sv(m)) for k, m in controllers.items())))
     finally:
         for p in tmp:
             try:
